@@ -1,6 +1,9 @@
 package main
 
-import "go/types"
+import (
+	"go/types"
+	"strings"
+)
 
 // Registry: which rules decide which property. Explanations are copied into the evidence on every run.
 
@@ -26,7 +29,42 @@ func init() {
 			{Name: "C13.R2", Run: func(c *Ctx) { ruleRelocationComplete(c, "C13.R2") }},
 			{Name: "C13.R3", Run: func(c *Ctx) { ruleProgramReadOnly(c, "C13.R3") }},
 			{Name: "C13.R4", Run: func(c *Ctx) { ruleCommandScope(c, "C13.R4") }},
+			{Name: "C13.R6", Run: func(c *Ctx) { ruleAttemptFresh(c, "C13.R6") }},
 			{Name: "C13.R5", Run: func(c *Ctx) { ruleGlobalsReinit(c, "C13.R5") }},
+		},
+	})
+	register(&Property{
+		ID: "C01",
+		Explanation: "The input/output equivalence with a reference matcher is NOT decided. Decided are four structural mechanisms named by the property's anchors: (R1) dispatch completeness - every concrete node/instruction type converted to a pipeline interface has a case of the same pointer-ness in the consumer's type switch, and the character-class enum switches are exhaustive; (R2) relocation completeness - every instruction field that receives an offset-derived program counter in the generator is shifted by adjust; (R3) scan discipline - the next start position of findMatches is the end of the successful non-empty attempt or exactly one byte further, line/column updated from the byte stepped over, loop exit at the end of input; attempts start from a fresh VM state. " +
+			"Not decided: per-instruction semantics, priority order of alternatives, greedy/lazy loop protocol, what each jump target means to the VM.",
+		Assumptions: commonAssumptions,
+		Rules: []RuleFn{
+			{Name: "C01.R1", Run: func(c *Ctx) {
+				ruleTypeSwitchComplete(c, "C01.R1", []string{"bytecode", "engine"}, func(n *types.Named) bool {
+					switch n.Obj().Name() {
+					case "AstCommand", "AstSetBody", "AstExpression", "AstLiteral", "AstListable", "Command", "SearchInstruction":
+						return true
+					}
+					return false
+				}, 7)
+				ruleEnumExhaustive(c, "C01.R1", []string{"engine", "ast"}, func(es *enumSwitch) bool {
+					return strings.HasSuffix(types.TypeString(es.typ, shortQual), "AstCharacterClassType")
+				}, 2)
+			}},
+			{Name: "C01.R2", Run: func(c *Ctx) { ruleRelocationComplete(c, "C01.R2") }},
+			{Name: "C01.R3", Run: func(c *Ctx) { ruleScanDiscipline(c, "C01.R3"); ruleAttemptFresh(c, "C01.R3b") }},
+		},
+	})
+	register(&Property{
+		ID: "C04",
+		Explanation: "Decides that the amount clause can only select a window of one fixed match sequence: (R1) non-interference - in the scan loop of findMatches neither the next scan position/line/column/match counter, nor the arguments of CreateState and MakeMatch, are data-dependent on skip/take/last or control-dependent on a branch whose condition depends on them (loop-exit branches exempt: they truncate); (R2) a match is pushed exactly under success && non-empty && matchNumber >= skip, numbered matchNumber+1, the loop bound is matchNumber < skip+take, Limit(last) follows every push when last != 0 and drops from the front; (R3) the five clause forms of parse_amount return the documented (all, skip, take, last) tuples; (R4) the four values keep their identity from parser to generator to findMatches for both find and replace. " +
+			"Does NOT decide the queue's arithmetic beyond that Limit pops from the front.",
+		Assumptions: commonAssumptions,
+		Rules: []RuleFn{
+			{Name: "C04.R1", Run: func(c *Ctx) { ruleScanNonInterference(c, "C04.R1") }},
+			{Name: "C04.R2", Run: func(c *Ctx) { ruleWindow(c, "C04.R2") }},
+			{Name: "C04.R3", Run: func(c *Ctx) { ruleAmountTable(c, "C04.R3") }},
+			{Name: "C04.R4", Run: func(c *Ctx) { rulePlumbing(c, "C04.R4") }},
 		},
 	})
 	register(&Property{
